@@ -161,8 +161,27 @@ def discover_phase(ctx: Ctx, rng: random.Random) -> None:
                            "key": "discover:" + json.dumps(real)[:100]})
 
 
+def kf_base_is_multi_reexported(w: Dict[str, Any]) -> bool:
+    """Known finding: a class whose base (written through the defining module's name) is an object re-exported by SEVERAL
+    modules resolves that base or not depending on the order (the chain of aliases left by two moves is not followed).
+    Matches only when every differing entry differs in base sites / linearisation and every site that appears or
+    disappears is a multi-re-exported one."""
+    multi = {tuple(x) for x in w.get("multi_sites", [])}
+    if not multi or not w.get("diff"):
+        return False
+    for ident, (a, b) in w["diff"].items():
+        if a is None or b is None or a[:3] != b[:3]:
+            return False                                   # class / kind / location must agree
+        sa = {tuple(x) for x in (a[3] or []) if x} | {tuple(x) for x in (a[4] or []) if x}
+        sb = {tuple(x) for x in (b[3] or []) if x} | {tuple(x) for x in (b[4] or []) if x}
+        if not (sa ^ sb) or not (sa ^ sb) <= multi:
+            return False
+    return True
+
+
 def run(ctx: Ctx) -> int:
     rng = random.Random(ctx.seed)
+    ctx.register_matcher("base-reexported-by-several-modules", kf_base_is_multi_reexported)
     discover_phase(ctx, rng)
     projs = families.all_projects(ctx.quick)
     if not ctx.quick:
@@ -194,6 +213,7 @@ def run(ctx: Ctx) -> int:
             ctx.violation({"invariant": "ScheduleIndependent" if not cyclic else "ScheduleIndependentHierarchy",
                            "origin": {"family": proj["family"], **proj["meta"], "project": procrun.strip(proj)},
                            "schedules": [s1[0], s2[0]], "diff": diff, "distinct_outcomes": len(groups),
+                           "multi_sites": sorted(list(x) for x in multi_sites),
                            "key": f"sched:{proj['family']}:{json.dumps(proj['meta'], sort_keys=True)[:120]}"})
     ctx.extra["projects"] = len(by)
     ctx.extra["projects_with_several_schedules"] = multi
